@@ -53,6 +53,7 @@ def _rewrite_window(cut):
     t = re.sub(r"output\.write_all\(\s*format!\(\s*\"((?:[^\"\\]|\\.)*)\"\s*,\s*([^()]+?)\)\.as_bytes\(\)\s*\)\?;", fmt, t)
     t = re.sub(r"output\.write_all\(\s*(\w+)\.as_bytes\(\)\s*\)\?;", r"out.write_str(&\1, 0)?;", t)
     t = re.sub(r"(\w+)\.ends_with\('\\n'\)", r"ends_with_nl(&\1)", t)
+    t = re.sub(r"context\.includes_stack\.is_empty\(\)", "includes_empty", t)      # R8: free variable of the window
     if "output." in t or "write_all" in t:
         raise Undecided("%s: an output write of a shape outside R25 remains" % cut.desc)
     cut.text = t
@@ -64,7 +65,7 @@ def build(repo):
              assumptions=["the output is modelled by the number of newline characters written; R25 (literal newline counts computed by the extractor)",
                           "an included file name contains no newline; a source line after macro replacement has at most one newline, as its last character (precondition one_line)",
                           "the recursive process() call of #include and the line reader (read_line, comment removal) are not under contract: that the windows are the ONLY writers is checked textually",
-                          "an unterminated last line (no newline in the input) writes no newline although it gets an entry: stated in the contract, not hidden"])
+                          "the unterminated last line of the TOP-LEVEL file writes no newline although it gets an entry (nothing follows it): stated in the contract, not hidden"])
     f = SourceFile(repo, "src/cpp.rs")
     s0, ob0, cb0 = f.find_fn_span("process")
     body = f.masked[s0:cb0]
@@ -107,12 +108,15 @@ pub fn window_%(k)d(out: &mut Out, lines: &mut Vec<Entry>, line: u32, fname: Str
         else:
             fns.append("""
 // R8: window %(k)d (%(kind)s), verbatim up to R25
-pub fn window_%(k)d(out: &mut Out, lines: &mut Vec<Entry>, line: u32, new_line: String, has_lf: bool) -> (r: Result<(), Error>)
+pub fn window_%(k)d(out: &mut Out, lines: &mut Vec<Entry>, line: u32, new_line: String, has_lf: bool, includes_empty: bool) -> (r: Result<(), Error>)
     requires one_line(new_line@),
     ensures
         r is Ok ==> final(lines)@.len() == old(lines)@.len() + 1, //@ C06:linemap-line-one-entry
-        // one newline is written for the entry, unless the input line itself had none (unterminated last line of a file)
-        r is Ok ==> final(out).nl@ - old(out).nl@ == (if has_lf || (new_line@.len() > 0 && new_line@[new_line@.len() - 1] == '\\n') { 1int } else { 0int }), //@ C06:linemap-line-one-newline
+        // at most one newline is written for the entry, and exactly one whenever the input line had one
+        r is Ok ==> 0 <= final(out).nl@ - old(out).nl@ <= 1, //@ C06:linemap-line-at-most-one-newline
+        (r is Ok && (has_lf || (new_line@.len() > 0 && new_line@[new_line@.len() - 1] == '\\n'))) ==> final(out).nl@ - old(out).nl@ == 1, //@ C06:linemap-line-one-newline
+        // inside an included file every entry gets its newline, also the last line of a file that lacks one: otherwise the includer's lines are off by one
+        (r is Ok && !includes_empty) ==> final(out).nl@ - old(out).nl@ == 1, //@ C06:linemap-included-line-terminated
 {
 %(text)s
     Ok(())
